@@ -32,7 +32,7 @@ PIPE = True
 BUDGET = {"quick": 420, "thorough": 4000}
 
 KINDS = {"crash", "not_prefix", "duplicate", "time_not_increasing", "delivery_time_not_increasing", "multi_delivery", "over_capacity",
-         "unjustified_refusal", "blocking_failed_running", "accepted_after_stop", "lost_wakeup", "no_delivery",
+         "unjustified_refusal", "blocking_failed_running", "accepted_after_stop", "lost_wakeup", "no_delivery", "confl_state_lost",
          "stuck_sender", "exception", "confl_not_latest", "fifo", "stall", "undelivered", "malformed_history"}
 PROP_KINDS = {"C16": KINDS}
 
@@ -123,7 +123,41 @@ def _gen_stress(rng, tier):
     return [[2, policy, cap, nprod, nmsg, block, pace, stop_mode, rng.randint(1, 1 << 30), clock]]
 
 
+def _gen_dict(rng, tier):
+    """Collection vocabulary (header field 4 = 1): TSD<str, TS<int>> output, queue or conflating.
+    No restart; under the conflating policy every window opens with a "set" (so that the window's
+    pending state is not left to the first delta being a no-op), followed by sets, removals of present and
+    absent keys and empty deltas back to back before the cycle that takes the window."""
+    policy = rng.choice([2, 2, 2, 0, 0])
+    cap = rng.choice([0, 0, 2, 3]) if policy == 0 else 0
+    case = [[1, policy, cap, 1, 1], [5]]
+    present = set()
+
+    def delta(first):
+        r = rng.random()
+        if first or r < 0.4:
+            k = rng.randint(0, 3)
+            present.add(k)
+            return k * 100 + rng.randint(0, 9)
+        if r < 0.6:
+            return -1
+        k = rng.randint(0, 3)
+        present.discard(k)
+        return -10 - k
+    for _ in range(rng.randint(2, 7 if tier == "quick" else 14)):
+        n = rng.randint(1, 4)
+        for i in range(n):
+            case.append([1, rng.choice([0, 1]), delta(i == 0), 0])
+        for _ in range(rng.randint(1, 2) if policy == 2 else rng.randint(1, n + 1)):
+            case.append([3, 1])
+    for _ in range(5):
+        case.append([3, 1])
+    return case
+
+
 def gen(rng, tier, prop):
+    if rng.random() < 0.12:
+        return _gen_dict(rng, tier)
     if rng.random() < (0.14 if tier == "quick" else 0.08):
         return _gen_stress(rng, tier)
     return _gen_seq(rng, tier)
@@ -284,6 +318,88 @@ def _oracle_seq(case, out):
     return fails
 
 
+def _dapply(m, v):
+    m = dict(m)
+    if v >= 0:
+        m[v // 100] = v % 100
+    elif v <= -10:
+        m.pop(-v - 10, None)
+    return m
+
+
+def _oracle_dict(case, out):
+    """Collection vocabulary: the state seen downstream is the fold of the accepted deltas (queue: of all of
+    them, once everything was delivered; conflating: of the window's, over an empty accumulator), and an
+    accepted effective delta is never lost."""
+    fails = []
+
+    def bad(kind, detail):
+        fails.append((kind, detail))
+    policy = 2 if case[0][1] == 2 else 0
+    cap = case[0][2] if policy == 0 else 0
+    ops = case[1:]
+    window = []        # conflating: accepted deltas since the last delivery
+    accepted = []      # queue: all accepted deltas
+    last_state = None
+    last_t = None
+    shown = {}         # queue: state after the deliveries seen so far
+    started = False
+    for i, l in enumerate(out):
+        c = l[0]
+        if c == 6:
+            started = l[2] == 0
+        elif c in (1, 2):
+            op = ops[l[1]] if l[1] < len(ops) else None
+            if op is None:
+                bad("malformed_history", "line %s" % l)
+                continue
+            r, pend, flag = l[2], l[3], l[4]
+            if r not in (0, 1):
+                bad("exception", "send result %s" % l)
+            if r == 0 and started and (cap == 0 or pend < cap):
+                bad("unjustified_refusal", "delta %d refused by a running source with %d pending" % (op[2], pend))
+            if r == 1:
+                window.append(op[2])
+                accepted.append(op[2])
+            if policy == 2:
+                effective = any(v >= 0 for v in window)
+                if effective and pend != 1:
+                    bad("confl_state_lost", "after accepted deltas %s the conflating source reports pending_items %d" % (window, pend))
+                if effective and flag == 0:
+                    bad("lost_wakeup", "accepted deltas %s pending, push_update_pending not set" % window)
+            elif cap and pend > cap:
+                bad("over_capacity", "%d pending, capacity %d" % (pend, cap))
+        elif c == 5:
+            t, st = l[1], dict(zip(l[2::2], l[3::2]))
+            if last_t is not None and t <= last_t:
+                bad("time_not_increasing", "delivery at %d after %d" % (t, last_t))
+            last_t = t
+            if policy == 2:
+                want = {}
+                for v in window:
+                    want = _dapply(want, v)
+                if st != want:
+                    bad("confl_state_lost", "delivered state %s, the window's accepted deltas %s fold to %s" % (st, window, want))
+                window = []
+            last_state = st
+        elif c == 3:
+            evald, pend, flag = l[3], l[4], l[5]
+            had5 = i > 0 and out[i - 1][0] == 5
+            if policy == 2 and evald and not had5 and any(v >= 0 for v in window):
+                bad("confl_state_lost", "the cycle evaluated the source and delivered nothing although the deltas %s were accepted" % window)
+            if policy == 2 and not evald and any(v >= 0 for v in window) and flag == 0:
+                bad("lost_wakeup", "accepted deltas %s wait, no wake-up pending" % window)
+            if policy == 0 and pend == 0 and accepted:
+                want = {}
+                for v in accepted:
+                    want = _dapply(want, v)
+                if last_state is None or last_state != want:
+                    # the last visible delivery must show the fold of everything accepted (later deltas that
+                    # change nothing show nothing)
+                    bad("not_prefix", "queue drained: downstream state %s, accepted deltas fold to %s" % (last_state, want))
+    return fails
+
+
 def _parse_hist(out):
     h = {"sends": [], "delivs": [], "samples": [], "meta": None}
     for l in out:
@@ -436,6 +552,8 @@ def oracle(prop, case, impl_out):
         return [("crash", "driver died or timed out: rc=%s %s" % (impl_out.get("crash"), impl_out.get("stderr", "")[-200:]))]
     if not case or not case[0]:
         return []
+    if case[0][0] == 1 and len(case[0]) > 4 and case[0][4] == 1:
+        return _oracle_dict(case, impl_out)
     if case[0][0] == 1:
         return _oracle_seq(case, impl_out)
     if case[0][0] == 2:
@@ -454,6 +572,8 @@ def agree(case, impl_out, model_out):
 def nontrivial(case, impl_out):
     if not isinstance(impl_out, list):
         return False
+    if case[0][0] == 1 and len(case[0]) > 4 and case[0][4] == 1:
+        return any(l[0] == 5 for l in impl_out) and any(o[0] == 1 and o[2] < 0 for o in case[1:])
     if case[0][0] == 1:
         return any(l[0] == 5 for l in impl_out) and any(l[0] in (1, 2) and l[2] != 1 for l in impl_out)
     return any(l[0] == 21 for l in impl_out)
@@ -467,7 +587,14 @@ def stats(case, impl_out):
     if not isinstance(impl_out, list):
         return {"crashes": 1}
     pol = {0: "queue", 1: "burst", 2: "conflating"}.get(case[0][1], "other")
-    if case[0][0] == 1:
+    if case[0][0] == 1 and len(case[0]) > 4 and case[0][4] == 1:
+        add("dict_cases")
+        add("dict_policy_" + pol)
+        add("dict_sends", sum(1 for o in case[1:] if o[0] == 1))
+        add("dict_noop_candidates", sum(1 for o in case[1:] if o[0] == 1 and o[2] < 0))
+        add("dict_deliveries", sum(1 for l in impl_out if l[0] == 5))
+        add("dict_cycles_without_visible_delivery", sum(1 for i, l in enumerate(impl_out) if l[0] == 3 and len(l) > 3 and l[3] and (i == 0 or impl_out[i - 1][0] != 5)))
+    elif case[0][0] == 1:
         add("seq_cases")
         add("seq_policy_" + pol)
         add("seq_cap_%d" % case[0][2])
